@@ -39,7 +39,8 @@ def run_case(c):
         nz = bool(c.get("normalize"))
         try:
             if op[0] == "slice":
-                res = fr.get_slice(op[1], op[2])
+                lb, rb = c.get("raw_bounds", [op[1], op[2]])
+                res = fr.get_slice(lb, rb)
             elif op[0] == "dedrift":
                 res = stg.dedrift(fr, drift_rate=op[1]) if op[1] is not None else stg.dedrift(fr)
             elif op[0] == "integrate":
